@@ -80,7 +80,7 @@ class C12(Check):
         sym = self.prog.module(SYM)
         fn = sym.func("to_symbolic_model")
         q = fn.name
-        self.borrow("C06", ("S2", "S3", "S4", "S5", "S6", "S7", "S9", "S10", "S11", "S12", "S13"), "Y10")
+        self.borrow("C06", ("S2", "S3", "S4", "S5", "S6", "S7", "S9", "S10", "S11", "S12", "S13", "S14"), "Y10")
         # ---- Y1
         defining = []
         for lp in [s for s in walk_no_nested(fn) if isinstance(s, ast.For)]:
